@@ -2,7 +2,7 @@
 from ..runner import Finding, Result
 from . import common
 
-PROFILE = {'name': 'c04', 'max_clients': 6, 'hostile_masks': False, 'mp_rate': 0.5, 'weights': {'connect': 6, 'end': 3, 'quit': 2, 'join': 18, 'part': 8, 'kick': 6, 'topic': 2, 'invite': 2, 'cmode': 8, 'umode': 4, 'nick': 7, 'privmsg': 4, 'notice': 2, 'away': 1, 'oper': 1, 'kill': 0.5, 'wallops': 0.5, 'stats': 0.3, 'die': 0.1, 'squit': 0.1, 'names': 9, 'who': 9, 'whois': 9, 'list': 0.5, 'lusers': 0.5, 'ison': 0.3, 'userhost': 0.3, 'whowas': 0.3, 'chanlist': 0.5, 'cquery': 2}, 'mode_weights': {'s': 6, 'q': 3, 'a': 3, 'o': 5, 'h': 4, 'v': 5}}
+PROFILE = {'name': 'c04', 'cfg_variants': [{}, {}, {'max_joins': 2}, {'max_joins': 1}], 'max_clients': 6, 'hostile_masks': False, 'mp_rate': 0.5, 'weights': {'connect': 6, 'end': 3, 'quit': 2, 'join': 18, 'part': 8, 'kick': 6, 'topic': 2, 'invite': 2, 'cmode': 8, 'umode': 4, 'nick': 7, 'privmsg': 4, 'notice': 2, 'away': 1, 'oper': 1, 'kill': 0.5, 'wallops': 0.5, 'stats': 0.3, 'die': 0.1, 'squit': 0.1, 'names': 9, 'who': 9, 'whois': 9, 'list': 0.5, 'lusers': 0.5, 'ison': 0.3, 'userhost': 0.3, 'whowas': 0.3, 'chanlist': 0.5, 'cquery': 2}, 'mode_weights': {'s': 6, 'q': 3, 'a': 3, 'o': 5, 'h': 4, 'v': 5}}
 
 
 def run(ctx):
